@@ -78,22 +78,42 @@ def plan(tier, seed):
                          dists=(2.8,), levels=('mid',))
     for d in pairs[:: (1 if tier == 'thorough' else 3)]:
         shards.append(('functional', d, None, None, None))
+    # truncated residues inside multi-conformation inputs (conformations are completed from each other: atoms may be copies)
+    for rtype in (('ASP', 'GLU', 'HIS', 'ARG', 'TYR', 'LYS', 'CYS', 'GLY') if tier == 'quick' else AA20):
+        for position in ('middle', 'last'):
+            shards.append(('multiconf', rtype, position, 2 if tier == 'quick' else 3, None))
     shards.append(('reject', None, None, None, None))
     return dict(shards=shards, exhaustive=True,
                 rule=('all atom subsets of one residue in a tripeptide (middle position: 20 types; first / last-with-OXT: 5 types quick, 20 '
                       'thorough; residues with more than 9 atoms: all deletions of <= 3 (<= 2 for > 11 atoms) atoms in the quick tier, all '
                       'subsets in the thorough tier for the middle position and for residues of <= 11 atoms at the termini); all deletions of <= 2 atoms and of each whole residue in 8 A cut-outs; all subsets of '
-                      'the side-chain / ligand atoms of partner A in docked pairs (10x5 kinds); rejection cases. non-trivial = distinct '
+                      'the side-chain / ligand atoms of partner A in docked pairs (10x5 kinds); deletions of <= 2 (thorough 3) atoms of a residue '
+                      'inside two-conformation inputs (alt-loc elsewhere; two models truncated alike; truncated in one model only); rejection cases. non-trivial = distinct '
                       'truncated inputs that still contain at least one ionizable group by the reference census'),
                 bounds=dict(shards=len(shards)), samples=[dict(rtype='ASP', position='middle', removed=['CG', 'OD1'])])
 
 
-def judge(case, items, acc, what):
+def multiconf_items(sub, full, context):
+    """(items of the input, items whose census is expected in every conformation)"""
+    cl = lambda its: [i.clone() if not isinstance(i, str) else i for i in its]   # noqa: E731
+    if context == 'altloc-elsewhere':
+        out = cl(sub)
+        first = next(i for i, it in enumerate(out) if not isinstance(it, str) and it.name == 'CA')
+        b = out[first].clone()
+        out[first].alt, b.alt = 'A', 'B'
+        b.x += 300
+        out.insert(first + 1, b)
+        return out, sub
+    m = {'model-both': (sub, sub, sub), 'model-1-complete': (full, sub, full), 'model-2-complete': (sub, full, full)}[context]
+    return ['MODEL        1\n'] + cl(m[0]) + ['TER\n', 'ENDMDL\n', 'MODEL        2\n'] + cl(m[1]) + ['TER\n', 'ENDMDL\n'], m[2]
+
+
+def judge(case, items, acc, what, expect_items=None):
     text = gen.to_text(items)
     atoms = [i for i in items if not isinstance(i, str)]
     if not atoms:
         return
-    exp, info, st, tr = c01.census(items)
+    exp, info, st, tr = c01.census(items if expect_items is None else expect_items)
     acc.n += 1
     if exp:
         acc.nontrivial_n += 1
@@ -144,6 +164,14 @@ def run_shard(shard, ctx):
             removed = [target[j].name for j in range(n) if not m >> j & 1]
             case = dict(kind='residue', rtype=rtype, position=position, mask=m)
             judge(case, sub, acc, '%s %s without %s' % (rtype, position, removed))
+    elif kind == 'multiconf':
+        _, rtype, position, maxdel, _ = shard
+        items, target = tripeptide(rtype, position)
+        n = len(target)
+        for k in range(1, maxdel + 1):
+            for comb in itertools.combinations(range(n), k):
+                for context in ('altloc-elsewhere', 'model-both', 'model-1-complete', 'model-2-complete'):
+                    run_case(dict(kind='multiconf', rtype=rtype, position=position, drop=list(comb), context=context), ctx, acc)
     elif kind == 'cutout':
         run_case(dict(kind='cutout', d=shard[1]), ctx, acc)
     elif kind == 'functional':
@@ -167,6 +195,16 @@ def run_case(case, ctx, acc):
         keep = set(id(target[j]) for j in range(n) if m >> j & 1)
         sub = [it for it in items if not any(it is t for t in target) or id(it) in keep]
         judge(case, sub, acc, 'replay')
+    elif k == 'multiconf':
+        items, target = tripeptide(case['rtype'], case['position'])
+        for it in items:
+            it.x += off[0]
+            it.y += off[1]
+            it.z += off[2]
+        gone = [target[j] for j in case['drop']]
+        sub = [it for it in items if not any(it is g for g in gone)]
+        inp, expect = multiconf_items(sub, items, case['context'])
+        judge(case, inp, acc, '%s %s without %s (%s)' % (case['rtype'], case['position'], [g.name for g in gone], case['context']), expect_items=expect)
     elif k == 'cutout':
         s = corpus.build(case['d'], ctx.seed)
         atoms_idx = [i for i, it in enumerate(s.items) if not isinstance(it, str)]
